@@ -27,7 +27,7 @@ BUDGET = {"quick": 700, "thorough": 30000}
 SHRINK_SECONDS = {"quick": 40, "thorough": 200}
 RULE = (
     "case = (problem, transformation in {relabel, permute_states, rotate_degenerate, conjugate, shift, scale, "
-    "direct_sum}, parameters). Non-trivial = (>= 3 blocks or a selection) or the transformation moves the first or "
+    "direct_sum}, parameters; when the original has almost-equal levels the transformed problem is posed with exactly equal ones). Non-trivial = (>= 3 blocks or a selection) or the transformation moves the first or "
     "last block / creates or removes an exactly-zero H_0 block, and U_n != 0 at some order >= 2."
 )
 ASSUMPTIONS = [
